@@ -75,6 +75,10 @@ CHECKS = {
          "2-4 concurrent writers over 4-8 overlapping keys in 1-2 stores (even/odd writers in opposite key order), maxTime 2 s..2 min, caller deadlines 1..300 s, one writer stalled for 1.5 s..10 min at a PRNG-chosen call of its commit in half of the runs. Every non-stalled Commit must return within min(deadline, maxTime) + max(5 s, 25%) of simulated time, the scheduler step cap must not be hit, and a follow-up transaction on the same keys must commit within 30 simulated seconds.",
          "Trusted: simulator (every timer and deadline of the instrumented packages reads the simulated clock). A lock holder that DIES is only covered as a whole-process crash by C08/C09 (standalone mode has one process); the clustered variant with a separate lock service is not covered. The allowance is a stated bound of the check, not an implementation constant.",
          "7/C15"),
+ "C16": (ENUM, "deterministic simulation + failure-position enumeration: scripted two-phase participants attached to a real SOP transaction, a failure at every participant method and at every intercepted call of SOP's own commit/rollback; call-log and cold-read oracle",
+         "For 0..3 participants, two value placements and both client endings: every single participant failure (Begin/Phase1/Phase2/Rollback), a disk or cache fault at every call position of SOP's Begin/body/Phase1/Phase2/Rollback (every 3rd in the quick tier), plus sampled combinations of up to 3 participant failures and 2 SOP faults. A participant Phase2 call requires all Phase1 to have succeeded, Commit to return nil and the cold-read store to hold the committed state; otherwise the store must hold the previous state and every participant must have received a Rollback call.",
+         "Trusted: simulator, the scripted participants. Single-failure positions are exhaustive in the thorough tier for the one transaction body used (update + remove + two adds on a 5-item store); multi-failure combinations are sampled. No schedule dimension (one client task).",
+         "7/C16"),
  "C20": (EXPL, "deterministic simulation: writer/reader rounds under seeded schedules with forced cache evictions, lost entries, small capacities, clock advances; real-time-order oracle vs KV model",
          "Rounds of one writer plus concurrent readers, followed by readers that begin only after the writer's Commit returned; L1/L2 capacities from 1 entry to defaults, cache durations none..long with TTL, injected lost/missing L2 entries, clock advances across expiries, optional restart (cold caches). Every Get/scan/Count of an after-reader must equal the latest committed state.",
          "Trusted: simulator, KV model. Standalone caching only (one simulated process, in-memory L2 behind the proxy); the clustered Redis variant is not covered by this check (the Redis client is exercised by C28 against a stub). A task that spins inside sop is reported as a hang-class violation.",
